@@ -93,6 +93,17 @@ class SSetStr(Sym):
         return "SSetStr(%d items)" % len(self.items)
 
 
+class SSetOfSeq(Sym):
+    """set(<abstract sequence of strings>): only its cardinality class is modelled (0, 1, several)"""
+    __slots__ = ("seq",)
+
+    def __init__(self, seq):
+        self.seq = seq
+
+    def __repr__(self):
+        return "SSetOfSeq(%r)" % (self.seq,)
+
+
 class SSeq(Sym):
     """Abstract finite sequence with symbolic length.  `elem` maps a z3 Int index to a
     value (Sym or concrete) ; `member` optionally gives membership for set-derived lists."""
@@ -304,6 +315,8 @@ class MSet(set):
     def __init__(self, *a):
         set.__init__(self, *a)
         self.ranges = []
+        self.sitems = []          # symbolic strings added one by one; pairwise distinct (and distinct from
+                                  # the concrete members) under the path condition, because add() branches
 
     def member(self, b):
         conds = [b == z3.IntVal(c) for c in sorted(x for x in set.__iter__(self) if isinstance(x, int))]
@@ -312,11 +325,11 @@ class MSet(set):
 
 
 def is_sym(x):
-    return isinstance(x, Sym) or (isinstance(x, MSet) and bool(x.ranges))
+    return isinstance(x, Sym) or (isinstance(x, MSet) and bool(x.ranges or x.sitems))
 
 
 def has_sym(x, depth=3):
-    if isinstance(x, Sym) or (isinstance(x, MSet) and x.ranges):
+    if isinstance(x, Sym) or (isinstance(x, MSet) and (x.ranges or x.sitems)):
         return True
     if depth <= 0:
         return False
@@ -377,10 +390,17 @@ class Ctx(object):
         return z3.String("%s!%d" % (name, next(_fresh)))
 
     # -- assumptions
-    def assume(self, cond):
+    def assume(self, cond, light=False):
+        """light=True: the fact goes into the path condition (hypothesis of every obligation of the path)
+        but not into the feasibility solver - used for string refinements, on which z3's sequence solver
+        may not return within its budget.  Feasibility is then over-approximated, which is sound: an
+        infeasible path only yields obligations with contradictory hypotheses."""
         if isinstance(cond, bool):
             if not cond:
                 raise Infeasible()
+            return
+        if light:
+            self.pc.append(cond)
             return
         cond = z3.simplify(cond)
         if z3.is_true(cond):
@@ -397,6 +417,23 @@ class Ctx(object):
         r = self.solver.check()
         self.solver.pop()
         return r != z3.unsat          # unknown counts as feasible (sound over-approximation)
+
+    def branch_light(self, cond, label=None):
+        """fork on cond WITHOUT asking the solver (both outcomes taken as feasible) and without adding it
+        to the feasibility solver; see assume(light=True)"""
+        i = len(self.trace)
+        if i >= self.max_decisions:
+            raise PathLimit("more than %d decisions on one path" % self.max_decisions)
+        if i < len(self.replay):
+            d = self.replay[i]
+            d = Decision(d.value, d.forced, d.flipped, label)
+        else:
+            d = Decision(True, False, False, label)
+        self.trace.append(d)
+        self.pc.append(cond if d.value else z3.Not(cond))
+        if label:
+            self.notes.append("%s=%s" % (label, d.value))
+        return d.value
 
     def branch(self, cond, label=None):
         """Return a python bool for the symbolic condition, forking the exploration."""
